@@ -8,11 +8,21 @@ import time
 import z3
 
 QUICK_MS = int(os.environ.get("PYVC_TIMEOUT_MS", "15000"))
+# Budgets are stated in "nominal milliseconds" and enforced as z3 RESOURCE limits (rlimit: a deterministic count of solver
+# steps, about RL_PER_MS units per millisecond on an idle core of this sandbox), not as wall-clock timeouts: the same query
+# then gets the same verdict whether the machine is idle or twenty checks run at once.  Wall clock is only a distant safety
+# net (z3 does not always honour its limits): WALL_FACTOR x the nominal budget + WALL_SLACK seconds, after which the context
+# is interrupted and the answer is `unknown` with reason "wall-clock" (never turned into a verdict about the code).
+RL_PER_MS = 5000
+WALL_FACTOR = 8.0
+WALL_SLACK = 60.0
+WALLCLOCK_HITS = []
+STATS = dict(checks=0, seconds=0.0, rlimit_last=0)
 
 
 def _mk_solver(timeout_ms):
     s = z3.Solver()
-    s.set("timeout", timeout_ms)
+    s.set("rlimit", int(timeout_ms * RL_PER_MS))
     return s
 
 
@@ -22,6 +32,7 @@ STATE = dict(skip_default_first=False, ematch_wins=0)
 
 def reset_state():
     STATE.update(skip_default_first=False, ematch_wins=0)
+    del WALLCLOCK_HITS[:]
 
 
 def has_quant(e):
@@ -39,14 +50,18 @@ def has_quant(e):
     return r
 
 
-def feasible(pc, timeout_ms=250, full=False):
+def feasible(pc, timeout_ms=40, full=False):
     """False only if pc is certainly unsatisfiable.  By default only the quantifier-free
     conjuncts are used (an over-approximation of feasibility: sound for pruning)."""
     s = _mk_solver(timeout_ms)
+    if full:
+        # only `unsat` matters here (a contradictory path condition = vacuity); model-based instantiation would spend the whole
+        # budget looking for a model of the quantified facts, E-matching alone finds the contradictions that matter
+        s.set("smt.mbqi", False)
     for c in pc:
         if full or not has_quant(c):
             s.add(c)
-    r = _guarded_check(s, timeout_ms)
+    r = _guarded_check(s, timeout_ms, "feasible_full" if full else "feasible")
     if r == z3.unknown and full:
         return feasible(pc, timeout_ms, full=False)
     return r != z3.unsat
@@ -59,7 +74,7 @@ def quick_valid(pc, goal, timeout_ms=100):
         if not has_quant(c):
             s.add(c)
     s.add(z3.Not(goal))
-    return _guarded_check(s, timeout_ms) == z3.unsat
+    return _guarded_check(s, timeout_ms, "quick_valid") == z3.unsat
 
 
 def reach(pc, timeout_ms=3000):
@@ -100,8 +115,7 @@ def _retry(pc, goal, timeout_ms):
     """z3's quantifier instantiation is sensitive to the random seed: before giving up (and before the slower
     external solvers) retry with other seeds and with MBQI off (pure E-matching)."""
     for seed, mbqi in ((1, False), (7, True), (23, False)):
-        s = z3.Solver()
-        s.set("timeout", timeout_ms)
+        s = _mk_solver(timeout_ms)
         s.set("random_seed", seed)
         s.set("smt.random_seed", seed)
         if not mbqi:
@@ -115,6 +129,13 @@ def _retry(pc, goal, timeout_ms):
 
 
 def _check(pc, goal, timeout_ms, qf_only=False, ematch=False, seed=None):
+    r, s = _check0(pc, goal, timeout_ms, qf_only, ematch, seed)
+    if os.environ.get("PYVC_TRACE"):
+        print("    [stage qf=%s ematch=%s seed=%s budget=%d -> %s %s]" % (qf_only, ematch, seed, timeout_ms, r, STATS.get("last_s")), flush=True)
+    return r, s
+
+
+def _check0(pc, goal, timeout_ms, qf_only=False, ematch=False, seed=None):
     s = _mk_solver(timeout_ms)
     if ematch:
         s.set("smt.mbqi", False)
@@ -128,19 +149,42 @@ def _check(pc, goal, timeout_ms, qf_only=False, ematch=False, seed=None):
     return _guarded_check(s, timeout_ms), s
 
 
-def _guarded_check(s, timeout_ms):
+def _guarded_check(s, timeout_ms, who="prove"):
     """s.check() with a watchdog: z3 does not always honour its own timeout (observed: minutes inside one check with a
     20 s timeout); after 1.5x the budget + 2 s the context is interrupted and the answer is `unknown`."""
     import threading
-    t = threading.Timer(timeout_ms / 1000.0 * 1.5 + 2.0, z3.main_ctx().interrupt)
+    fired = []
+
+    def stop():
+        fired.append(1)
+        z3.main_ctx().interrupt()
+    # path pruning and vacuity canaries only ever use `unsat`; an interrupted one is `unknown` = "feasible", the safe answer, so
+    # their safety net can be short (non-linear real arithmetic does not honour rlimit); proofs get the long one
+    slack = WALL_SLACK if who == "prove" else 5.0
+    t = threading.Timer(timeout_ms / 1000.0 * WALL_FACTOR + slack, stop)
     t.daemon = True
     t.start()
+    t0 = time.time()
     try:
         return s.check()
     except z3.Z3Exception:
         return z3.unknown
     finally:
         t.cancel()
+        if fired and who == "prove":
+            WALLCLOCK_HITS.append(timeout_ms)
+        STATS["checks"] += 1
+        STATS["seconds"] += time.time() - t0
+        STATS["last_s"] = round(time.time() - t0, 2)
+        STATS[who + "_n"] = STATS.get(who + "_n", 0) + 1
+        STATS[who + "_s"] = round(STATS.get(who + "_s", 0.0) + time.time() - t0, 3)
+        try:
+            st = s.statistics()
+            for k in st.keys():
+                if k == "rlimit count":
+                    STATS["rlimit_last"] = st.get_key_value(k)   # cumulative over the context
+        except Exception:   # pragma: no cover
+            pass
 
 
 def prove(pc, goal, timeout_ms=None, want_model=True, external=True):
@@ -168,7 +212,9 @@ def prove(pc, goal, timeout_ms=None, want_model=True, external=True):
         r, _ = _check(pc, goal, 500, qf_only=True)
         if r == z3.unsat:
             return done("unsat", "z3-5.1.0 (quantifier-free subset)")
-        r, _ = _check(pc, goal, max(1000, timeout_ms // 2), ematch=True)
+        # E-matching alone: a short try first (when it works it works at once; when it does not it can burn minutes per
+        # resource unit), the full query with the full budget next, a long E-matching try only after that
+        r, _ = _check(pc, goal, 1000, ematch=True)
         if r == z3.unsat:
             return done("unsat", "z3-5.1.0 (e-matching)")
         r, s = _check(pc, goal, timeout_ms)
@@ -176,8 +222,12 @@ def prove(pc, goal, timeout_ms=None, want_model=True, external=True):
             return done("unsat")
         if r == z3.sat:
             return done("sat", model=s.model() if want_model else None)
+        if timeout_ms // 2 > 1000 and external:
+            r, _ = _check(pc, goal, timeout_ms // 2, ematch=True)
+            if r == z3.unsat:
+                return done("unsat", "z3-5.1.0 (e-matching)")
     if not external:
-        res["reason"] = s.reason_unknown()
+        res["reason"] = _reason(s)
         return done("unknown")
     for seed in (1, 7):
         r, _ = _check(pc, goal, timeout_ms, seed=seed, ematch=(seed == 1))
@@ -186,8 +236,15 @@ def prove(pc, goal, timeout_ms=None, want_model=True, external=True):
     v, backend = _external("(set-logic ALL)\n" + s.to_smt2(), max(5, timeout_ms // 1000))
     if v != "unknown":
         return done(v, backend)
-    res["reason"] = s.reason_unknown()
+    res["reason"] = _reason(s)
     return done("unknown")
+
+
+def _reason(s):
+    r = s.reason_unknown()
+    if WALLCLOCK_HITS:
+        r += " [wall-clock safety net fired %d time(s) in this function]" % len(WALLCLOCK_HITS)
+    return r
 
 
 def _unused():
